@@ -91,11 +91,14 @@ def optlang_dump(model) -> dict:
     """The optlang view of the same problem (model.variables / constraints / objective)."""
     s = model.solver
     s.update()
-    vars_ = {v.name: [num(-math.inf if v.lb is None else v.lb), num(math.inf if v.ub is None else v.ub), v.type] for v in s.variables}
+    def inf(x, sign):
+        # optlang's mirror of a problem rebuilt from GLPK's text form (copy / pickle) holds +-DBL_MAX where GLPK itself says "no bound"
+        return sign * math.inf if x is None or abs(x) >= 1e308 else x
+    vars_ = {v.name: [num(inf(v.lb, -1)), num(inf(v.ub, 1)), v.type] for v in s.variables}
     cons = {}
     for c in s.constraints:
         co = c.get_linear_coefficients(c.variables) if c.is_Linear else {}
-        cons[c.name] = {"b": [num(-math.inf if c.lb is None else c.lb), num(math.inf if c.ub is None else c.ub)],
+        cons[c.name] = {"b": [num(inf(c.lb, -1)), num(inf(c.ub, 1))],
                         "c": dict(sorted((v.name, num(x)) for v, x in co.items() if x != 0))}
     obj = {}
     if s.objective.is_Linear:
